@@ -774,6 +774,27 @@ fn supervisor(spec: &Spec, a: &Args) -> ! {
             None => println!("KNOWN-FINDING: property={} {} (0 hits in this run) {}", spec.prop, id, truncate(what, 400)),
         }
     }
+    // a known finding may carry a ceiling on how often its predicate may match (hits / evaluations):
+    // a much higher density than the recorded one is a different failure hiding behind the same predicate
+    let mut rate_violation = false;
+    for f in all_findings.iter().filter(|f| f["status"].as_str() == Some("open") && f["property"].as_str() == Some(spec.prop)) {
+        if let (Some(id), Some(maxr)) = (f["id"].as_str(), f["max_hit_rate"].as_f64()) {
+            let hits = known.get(id).map_or(0, |v| v.0);
+            if evals > 2000 && hits as f64 > maxr * evals as f64 {
+                let path = rdir.join(format!("{}-{}-s{}-rate-{}.json", spec.prop, a.tier.name(), a.seed as i64, id));
+                let ex = known.get(id).map(|v| v.1.clone()).unwrap_or_default();
+                let idx = ex.strip_prefix("idx=").and_then(|t| t.split_whitespace().next()).and_then(|t| t.parse::<u64>().ok()).unwrap_or(0);
+                let body = json!({"property": spec.prop, "tier": a.tier.name(), "seed": a.seed as i64, "idx": idx, "violation": {"kind": "known_finding_rate", "finding": id, "hits": hits, "evaluations": evals, "max_hit_rate": maxr, "example": ex}});
+                let _ = std::fs::write(&path, serde_json::to_string_pretty(&body).unwrap());
+                println!("  known finding {} matched {} of {} evaluations, above its recorded ceiling of {:.3}%", id, hits, evals, maxr * 100.0);
+                println!("VIOLATION property={} replay={}", spec.prop, path.display());
+                rate_violation = true;
+            }
+        }
+    }
+    if rate_violation && n_viol == 0 {
+        std::process::exit(1)
+    }
     if n_viol > 0 {
         println!("{} violation(s) observed, {} distinct signatures reported", n_viol, printed.len());
         for (path, v) in &printed {
